@@ -111,3 +111,101 @@ func TestC05(t *testing.T) {
 			return c["schedule-with-load"] > 0 && (c["cancel:waiting"] > 0 || c["schedule:reject"] > 0 || c["schedule:replace"] > 0)
 		}})
 }
+
+// C01: per-pipeline concurrency limit is never exceeded.
+func TestC01(t *testing.T) {
+	cfg := &Cfg{Prop: "C01", MaxPipelines: 2, MaxTasks: 3, DelayPct: 30, ReplacePct: 25, CyclicPct: 12, ReservedPct: 12, AllowFailPct: 15, ContinuePct: 30,
+		LimitChoices: []int{-1, -1, -1, 2, 3, 1}, Weights: map[string]int{"schedule": 36, "cancel": 9, "finish": 30, "timer": 10, "hold": 4, "release": 6, "reload": 5},
+		Armed: map[string]bool{"C01": true}}
+	runHistories(t, histOpts{cfg: cfg, failPct: 20,
+		rule: "stateful rapid histories incl. reload (limits raised/lowered), reserved-variable and cyclic jobs, hold/release, failures, out-of-order timers; invariants evaluated at every event of the task-runner log: jobs executing after each start <= concurrency in force, every task interval inside its job's executing span, completion reported only with no task open, no second start; non-trivial = the limit was binding (a request queued or rejected while jobs ran) and a queued job was started later; distinct by action trace",
+		nontrivial: func(c map[string]int) bool {
+			return (c["schedule:queue"] > 0 || c["schedule:replace"] > 0 || c["schedule:reject"] > 0) && c["dequeue-start"] > 0
+		}})
+}
+
+// C02: tasks run at most once and only after their dependencies succeeded.
+func TestC02(t *testing.T) {
+	cfg := &Cfg{Prop: "C02", MaxPipelines: 2, MaxTasks: 8, DelayPct: 10, ReplacePct: 10, CyclicPct: 25, ReservedPct: 8, AllowFailPct: 25, ContinuePct: 50, EmptyPct: 10,
+		LimitChoices: []int{-1, -1, -1, 2, 3}, Weights: map[string]int{"schedule": 20, "cancel": 3, "finish": 60, "timer": 6, "hold": 3, "release": 5},
+		Armed: map[string]bool{"C02": true}}
+	runHistories(t, histOpts{cfg: cfg, failPct: 25,
+		rule:       "generated task graphs (1-8 tasks: chains, diamonds, fan-in/out, independent, empty scripts, duplicate depends_on, 25% cyclic) x generated completion order and outcomes, with sibling jobs before/after; oracle over the runner log: each (job,task) enters Run at most once and only after every dependency exited ok (or failed under allow_failure); a job reported successful ran every task; acyclic+all ok => plain success; cyclic => no task, canceled with error; non-trivial = a job with >=4 tasks and a task with >=2 dependencies (diamond/fan-in) ran, or a cyclic job was accepted; distinct by action trace",
+		nontrivial: func(c map[string]int) bool { return c["graph:fanin4"] > 0 || c["graph:cyclic"] > 0 }})
+}
+
+// C03: no accepted job is lost or stranded on the wait list.
+func TestC03(t *testing.T) {
+	cfg := &Cfg{Prop: "C03", MaxPipelines: 2, MaxTasks: 2, DelayPct: 50, ReplacePct: 25, CyclicPct: 10, ReservedPct: 15,
+		LimitChoices: []int{-1, -1, -1, 2, 3, 1}, Weights: map[string]int{"schedule": 36, "cancel": 16, "finish": 24, "timer": 14, "hold": 2, "release": 4, "reload": 5, "save": 2},
+		Armed: map[string]bool{"C03": true}}
+	runHistories(t, histOpts{cfg: cfg, failPct: 15,
+		rule: "histories biased to cancels of waiting jobs (before/after their timer), unstartable heads (reserved variable, cyclic graph), replace and reloads with a non-empty queue; oracle: at every quiescent point under an unchanged definition free slot && head's delay expired => head started; after a drain (all holds released, timers fired, tasks finished) every accepted job of a still-defined pipeline started or is canceled; non-trivial = cancel of a waiting job with another behind it, or an unstartable job that waited, or a replacement, or a reload with waiting jobs; distinct by action trace",
+		nontrivial: func(c map[string]int) bool {
+			return c["cancel:waiting-with-job-behind"] > 0 || c["bad-waited"] > 0 || c["replaced"] > 0 || c["reload:with-waiting"] > 0
+		}})
+}
+
+// C04: an acknowledged cancel always takes effect and is never lost.
+func TestC04(t *testing.T) {
+	cfg := &Cfg{Prop: "C04", MaxPipelines: 2, MaxTasks: 4, DelayPct: 30, ReplacePct: 15, AllowFailPct: 25, ContinuePct: 30,
+		LimitChoices: []int{-1, -1, 2, 3}, Weights: map[string]int{"schedule": 26, "cancel": 22, "finish": 28, "timer": 8, "hold": 10, "release": 8},
+		Armed: map[string]bool{"C04": true}}
+	runHistories(t, histOpts{cfg: cfg, failPct: 12,
+		rule: "histories with a high weight of hold/cancel so that cancels land on waiting jobs (with/without pending timer), running jobs with any subset of tasks finished, the gap between two tasks (hold -> finish -> cancel -> release), repeated cancels, finished/canceled/unknown ids; oracle: return value per state, no start after a waiting cancel, Cancel() delivered to the runner of a running job, final report canceled (never a plain success unless every task had succeeded before the ack), finished jobs unchanged; non-trivial = a cancel acknowledged for a running multi-task job while none of its tasks was executing, or for a job with pending delay; distinct by action trace",
+		nontrivial: func(c map[string]int) bool {
+			return c["cancel:in-gap"] > 0 || c["cancel:waiting-with-pending-timer"] > 0
+		}})
+}
+
+// C06: queued jobs start in the order they were accepted.
+func TestC06(t *testing.T) {
+	cfg := &Cfg{Prop: "C06", MaxPipelines: 1, MaxTasks: 2, DelayPct: 35, ReplacePct: 0, CyclicPct: 8, ReservedPct: 12,
+		LimitChoices: []int{-1, -1, -1, 3}, Weights: map[string]int{"schedule": 40, "cancel": 12, "finish": 30, "timer": 14, "hold": 2, "release": 3},
+		Armed: map[string]bool{"C06": true}}
+	runHistories(t, histOpts{cfg: cfg, failPct: 20,
+		rule: "single-pipeline histories without reload, queue unbounded or 3, concurrency 1-3, cancels of head/middle/tail, unstartable heads, failures, timers fired out of order; oracle at every observed start of a job that had waited: no earlier-accepted job of the pipeline is still waiting (accepted, not started, not canceled); non-trivial = >=3 jobs waited at once, >=1 of them was canceled or could not start, and >=2 waited jobs started later; distinct by action trace",
+		nontrivial: func(c map[string]int) bool {
+			return c["waiting>=3"] > 0 && (c["cancel:waiting"] > 0 || c["bad-waited"] > 0) && c["dequeue-start"] >= 2
+		}})
+}
+
+// C07 (simulated part): replace debounces to the newest job; the delay gates the start.
+func TestC07Sim(t *testing.T) {
+	cfg := &Cfg{Prop: "C07", MaxPipelines: 2, MaxTasks: 2, DelayPct: 75, ReplacePct: 70,
+		LimitChoices: []int{-1, 1, 1, 2}, Weights: map[string]int{"schedule": 45, "cancel": 8, "finish": 22, "timer": 20, "hold": 1, "release": 2},
+		Armed: map[string]bool{"C07": true}}
+	runHistories(t, histOpts{cfg: cfg, failPct: 10,
+		rule:       "histories over pipelines with start_delay (timer expiry delivered by the harness through StartDelayedJob, also late and out of order) and the replace strategy; oracle: no start before the job's timer, a replaced job never starts, only the most recently queued job is replaced, a job whose delay expired starts when a slot is free (quiescent obligation), after the drain the newest accepted job ran unless canceled; non-trivial = a burst of >=3 requests inside one delay window under replace, or a timer that expired while the pipeline was busy; distinct by action trace",
+		nontrivial: func(c map[string]int) bool { return c["replaced"] >= 2 || c["timer:while-busy"] > 0 }})
+}
+
+// C08: failure handling and the reported verdict are sound.
+func TestC08(t *testing.T) {
+	cfg := &Cfg{Prop: "C08", MaxPipelines: 2, MaxTasks: 6, DelayPct: 5, ReplacePct: 5, AllowFailPct: 30, ContinuePct: 50, EmptyPct: 5,
+		LimitChoices: []int{-1, -1, 2}, Weights: map[string]int{"schedule": 18, "cancel": 4, "finish": 60, "timer": 3, "hold": 6, "release": 7},
+		Armed: map[string]bool{"C08": true}}
+	runHistories(t, histOpts{cfg: cfg, failPct: 35,
+		rule:       "generated graph x per-task outcome (ok / exit N / exit N under allow_failure) x fail-fast on/off x completion order incl. gaps (hold); oracle: no task with a failed non-allowed ancestor runs; fail-fast => Cancel() reaches the runner, job ends with an error; continue => no Cancel(), everything independent runs, not canceled; plain success only if every task ran ok or failed under allow_failure; no task reported running after completion; allow_failure does not fail the job; task-level report agrees with the delivered outcome; non-trivial = a non-allowed failure in a job with >=3 tasks, or an allowed failure with a dependent; distinct by action trace",
+		nontrivial: func(c map[string]int) bool { return c["fail:with-3-tasks"] > 0 || c["fail-allowed:with-dependent"] > 0 }})
+}
+
+// C15: what the API reports agrees with what the runner does.
+func TestC15(t *testing.T) {
+	cfg := &Cfg{Prop: "C15", MaxPipelines: 3, MaxTasks: 5, DelayPct: 30, ReplacePct: 30, CyclicPct: 10, ReservedPct: 8, AllowFailPct: 15, ContinuePct: 30,
+		LimitChoices: []int{-1, 0, 1, 2, 3}, Weights: map[string]int{"schedule": 36, "cancel": 10, "finish": 28, "timer": 10, "hold": 3, "release": 5, "reload": 3},
+		Armed: map[string]bool{"C15": true}}
+	runHistories(t, histOpts{cfg: cfg, failPct: 20,
+		rule:       "general histories; at every quiescent point: schedulable flag read before each request vs. its acceptance (both directions), running flag vs. started-unfinished jobs vs. the runner log, every accepted job found by id, in IterateJobs and in GET /pipelines/jobs (newest first by true creation time), /job/detail 200/404, created<=start<=end, tasks after their dependencies and in the same order for every job of one definition; non-trivial = a quiescent point at which a pipeline is running or not schedulable; distinct by action trace",
+		nontrivial: func(c map[string]int) bool { return c["listing:busy-point"] > 0 }})
+}
+
+// C16: a definition reload affects only jobs scheduled afterwards.
+func TestC16(t *testing.T) {
+	cfg := &Cfg{Prop: "C16", MaxPipelines: 2, MaxTasks: 4, DelayPct: 35, ReplacePct: 15, AllowFailPct: 10, ContinuePct: 0,
+		LimitChoices: []int{-1, -1, 2, 3}, Weights: map[string]int{"schedule": 30, "cancel": 4, "finish": 28, "timer": 10, "hold": 6, "release": 6, "reload": 16, "save": 3},
+		Armed: map[string]bool{"C16": true}}
+	runHistories(t, histOpts{cfg: cfg, failPct: 0,
+		rule:       "histories with reloads (1-3 edits: task added/removed/rewired, script/env changed, delay added/removed/changed, limits/strategy changed, pipeline added/removed) landing while jobs wait, wait with pending delay, or run between tasks (hold); oracle: per job a deep copy of its pipeline at accept time - the runner log must show exactly those tasks/commands/env/dependencies, the job carries that delay and does not start before its own timer; the reload call itself changes no job and causes no runner activity; after the drain no job of a still-defined pipeline is stranded; nobody canceled => plain success; non-trivial = a reload while the edited pipeline had a waiting and a running job; distinct by action trace",
+		nontrivial: func(c map[string]int) bool { return c["reload:with-waiting"] > 0 && c["reload:with-running"] > 0 }})
+}
